@@ -228,6 +228,15 @@ def judge(pid, cfg, traces, val, known):
     return viol, hits, drift
 
 
+def known_text(fid):
+    for k in load_known():
+        if k["id"] == fid:
+            t = k.get("line", "")
+            t = t.split(" ", 2)[2] if t.startswith("known:") and t.count(" ") >= 2 else t
+            return t[:260]
+    return ""
+
+
 def match_known(pid, clause, known):
     for k in known:
         if k.get("status") == "known" and k["property"] == pid and clause.startswith(k["clause"]):
@@ -316,8 +325,8 @@ def finish(pid, cfg, tier, seed, t0, mcs, traces, gstats, val, viol, hits, drift
         if h["finding"] not in seen:
             seen.add(h["finding"])
             n = sum(1 for x in hits if x["finding"] == h["finding"])
-            print("KNOWN-FINDING: property=%s %s (clause %s, seen in %d traces this run)"
-                  % (pid, h["finding"], h["clause"], n))
+            print("KNOWN-FINDING: property=%s %s %s (clause %s, seen in %d traces this run)"
+                  % (pid, h["finding"], known_text(h["finding"]), h["clause"], n))
     if drift:
         kinds = sorted(set(c for d in drift for c in d["clauses"]))
         print("MODEL-DRIFT property=%s traces=%d clauses=%s : layout/write order differs from the block "
@@ -797,8 +806,8 @@ def replay(pid, path, work):
             op = tr["steps"][step - 1]["op"] if 0 < step <= len(tr["steps"]) else "?"
             print("VIOLATION property=%s replay=%s clause=%s step=%d op=%s" % (body["property"], path, clause, step, op))
     for h in hits:
-        print("KNOWN-FINDING: property=%s %s (clause %s at step %d of this replay)"
-              % (body["property"], h["finding"], h["clause"], h["step"]))
+        print("KNOWN-FINDING: property=%s %s %s (clause %s at step %d of this replay)"
+              % (body["property"], h["finding"], known_text(h["finding"]), h["clause"], h["step"]))
     if not viol:
         print("replay: no violation of %s on the current tree (all verdicts: %s)" % (body["property"], val["verdicts"]))
     return 1 if viol else 0
